@@ -12,7 +12,7 @@ for f in sorted([f for f in k if f['status'] == 'fixed'], key=lambda f: (f['prop
 known = ["| property | signature | what fails (and why it is not repaired here) |", "|---|---|---|"]
 for f in sorted([f for f in k if f['status'] == 'known'], key=lambda f: (f['property'], f['sig'])):
     known.append("| %s | `%s` | %s |" % (f['property'], f['sig'], esc(f['what'])))
-seeded = ["| change | breaks | needs | caught by (quick tier: test → signature) | missed first | strengthening |", "|---|---|---|---|---|---|"]
+seeded = ["| change | round | breaks | needs | caught by (quick tier: test → signature) | missed first | strengthening |", "|---|---|---|---|---|---|---|"]
 for mf in sorted(glob.glob(V + '/seeded/C*-m*/meta.json')):
     m = json.load(open(mf))
     cb = []
@@ -20,7 +20,7 @@ for mf in sorted(glob.glob(V + '/seeded/C*-m*/meta.json')):
         cb.append("%s: %s → `%s`" % (r['check'], ', '.join(r['tests']) or '?', '`, `'.join(r['signatures'])))
     needs = re.sub(r'\s+', ' ', m['needs_to_manifest'])
     needs = (needs[:260] + ' …') if len(needs) > 260 else needs
-    seeded.append("| %s | %s | %s | %s | %s | %s |" % (m['id'], esc(m['breaks']), esc(needs), esc('; '.join(cb)) if cb else '**not caught**',
+    seeded.append("| %s | %s | %s | %s | %s | %s | %s |" % (m['id'], m.get('round', ''), esc(m['breaks']), esc(needs), esc('; '.join(cb)) if cb else '**not caught**',
                   'yes' if m['detection']['initially_missed'] else 'no', esc(m['detection']['strengthening'])))
 s = open(V + '/DESIGN.md').read()
 for name, rows in (('fixed', fixed), ('known', known), ('seeded', seeded)):
